@@ -161,6 +161,8 @@ func Load(c LoadConfig) (*Prog, error) {
 	curProg = p
 	refAnchors = loadAnchors()
 	callSiteCache = map[*ssa.Function][]ssa.CallInstruction{}
+	newFieldCache = map[string][]ssa.Value{}
+	newPredCache = map[*ssa.Function]bool{}
 	propagatingCache = map[*ssa.Function]map[int]bool{}
 	deadCache = map[*Prog]map[*ssa.Function]bool{}
 	return p, nil
